@@ -157,6 +157,43 @@ Proof.
   simpl. rewrite IH, g_needs_escape_eq by (destruct Hc; assumption). reflexivity.
 Qed.
 
+(* ---- minidump-common utils.rs basename: the same function as leafname, and its slice is in bounds ------ *)
+Lemma rfind_pat_ext : forall f g s, (forall c, f c = g c) -> rfind_pat f s = rfind_pat g s.
+Proof. intros f g s E. induction s as [|c r IH]; [reflexivity|]. simpl. rewrite IH, E. reflexivity. Qed.
+
+Lemma rfind_none_has_sep : forall r, rfind_pat is_sep r = None -> has_sep r = false.
+Proof.
+  induction r as [|c r IH]; [reflexivity|]. cbn [rfind_pat]. intro H.
+  destruct (rfind_pat is_sep r); [discriminate|]. destruct (is_sep c) eqn:E; [discriminate|].
+  unfold has_sep. cbn [existsb]. rewrite E. exact (IH eq_refl).
+Qed.
+Lemma rfind_some_has_sep : forall r i, rfind_pat is_sep r = Some i -> has_sep r = true.
+Proof.
+  induction r as [|c r IH]; [discriminate|]. cbn [rfind_pat]. intros i H. unfold has_sep. cbn [existsb].
+  destruct (rfind_pat is_sep r) as [j|] eqn:E.
+  - rewrite (IH j eq_refl : existsb is_sep r = true). apply orb_true_r.
+  - destruct (is_sep c); [reflexivity | discriminate].
+Qed.
+
+(* the slice &f[(index + 1)..] of basename is always in bounds (and starts after an ASCII byte) *)
+Lemma rfind_pat_in_bounds : forall f s i, rfind_pat f s = Some i -> (i + 1 <= length s)%nat.
+Proof.
+  induction s as [|c r IH]; [discriminate|]. cbn [rfind_pat length]. intros i H.
+  destruct (rfind_pat f r) as [j|].
+  - inversion H. specialize (IH j eq_refl). lia.
+  - destruct (f c); inversion H. lia.
+Qed.
+
+Lemma g_basename_eq : forall s, g_basename s = leafname s.
+Proof.
+  intro s. unfold g_basename. rewrite (rfind_pat_ext _ is_sep s pat_seps). unfold slice_from.
+  induction s as [|c r IH]; [reflexivity|].
+  change (leafname (c :: r)) with (if has_sep r then leafname r else if is_sep c then r else c :: r).
+  cbn [rfind_pat]. destruct (rfind_pat is_sep r) as [j|] eqn:E.
+  - rewrite (rfind_some_has_sep r j E). rewrite <- IH. replace (S j + 1)%nat with (S (j + 1)) by lia. reflexivity.
+  - rewrite (rfind_none_has_sep r E). destruct (is_sep c); reflexivity.
+Qed.
+
 Lemma g_no_partial_ops : g_partial_ops = O.
 Proof. reflexivity. Qed.
 
